@@ -27,6 +27,7 @@ import (
 	"math/rand"
 	"net/http"
 	"net/http/httptest"
+	"regexp"
 	"runtime/debug"
 	"sort"
 	"strings"
@@ -566,8 +567,12 @@ func (b *c10Browser) Save(sp c10Spec) (parts int, ok bool) {
 	return parts, ok
 }
 
-// collides: one of several cookies set by a save carries exactly the configured cookie name.
+// collides: the configured name has 256 characters and ends in _<k>, and one of several cookies set by a save carries
+// exactly that name (known finding; the input class is kept this tight on purpose).
 func (b *c10Browser) collides(lines []string) bool {
+	if len(b.cfg.Name) != 256 || !c10EndsInPartSuffix.MatchString(b.cfg.Name) {
+		return false
+	}
 	for _, l := range lines {
 		if c, err := http.ParseSetCookie(l); err == nil && c.MaxAge >= 0 && c.Name == b.cfg.Name {
 			return true
@@ -709,6 +714,8 @@ func (th c10Thr) pickSizes(rng *rand.Rand, extra int) []int {
 // ---------------------------------------------------------------------------------------------------------
 
 var c10uid, c10MaxLine int64
+
+var c10EndsInPartSuffix = regexp.MustCompile(`_[0-9]+$`)
 
 // c10Jobs collects the histories of all configurations so that one worker pool runs them.
 type c10Jobs struct{ list []func() }
